@@ -17,19 +17,31 @@ from harness.core import Case, ImplResult
 PID = 'C18'
 LEAN_MODULES = ['ThermoVerif.Props.C18']
 RULE = ('histories of rewiring operations over a universe of AbstractUnit subclasses with fixed and variable '
-        'port counts, AbstractStreams and the placeholder objects the port lists create; generated adaptively on '
-        'the real objects so that ~90% of operations satisfy the stated preconditions (for streams and placeholders '
-        'alike); a case is non-trivial when at least one operation changed the connectivity; distinct = distinct '
-        'op sequences; tags ph-moved:* count histories/operations that carry an existing placeholder object from '
-        'one unit to another')
+        'port counts, AbstractStreams and the placeholder objects the port lists create. Exhaustive part: every '
+        'operation of two finite alphabets (empty 3-unit universe; connected 4-unit universe) to depth 1 (quick) / '
+        '2 (thorough), plus every alphabet operation after random reachable prefixes. Random part: histories of a '
+        'target length up to ~55 operations generated adaptively on the real objects: a proposed operation that '
+        'the code rejects or that leaves the stated preconditions (Python monitor on the real objects) is dropped '
+        'and generation continues, so the histories are as long as stated and almost entirely judged by the '
+        'oracle; 30% end with a few unfiltered operations, 12% are plain histories that stop at the first '
+        'rejected call. A case is non-trivial when at least one operation changed the connectivity; distinct = '
+        'distinct op sequences. Evidence: random_history_lengths, per_op_kind (judged / unjudged / raised), '
+        'placeholder_moves, oracle failures set aside outside the preconditions, states left by raising calls.')
 ASSUMPTIONS = [
     'Python object identity is modelled by ids; list semantics of `in`, `index`, slice assignment as in CPython',
-    'preconditions of the property are evaluated by the model (pre= flag) at primitive list-operation level, '
-    'for streams and placeholder objects alike (a placeholder assigned to a port must not already be in that list; '
-    'an appended/inserted placeholder must not be docked on that side)',
-    'negative indices, stepped slices and auxiliary/superposition streams are not generated',
-    'placeholder objects inside constructor lists are not generated (the code would take them for IDs)',
+    'the stated preconditions are evaluated twice, independently: in Python on the real objects at every primitive '
+    'list operation the real code performs (Monitor) and '
+    'in the Lean model (pre= flag); the two flags are part of the compared line, so they must agree on every line, '
+    'and an oracle failure is set aside only when both are off. '
+    'Both are sticky and treat placeholder objects like streams',
+    'a call that raises ends the history: the state a rejected call leaves behind is outside the property as read '
+    '(it is inspected and reported in the evidence under states_left_by_raising_calls, not judged)',
+    'stepped slices, `del`, auxiliary/superposition streams and the `discard=` flags are not generated; negative '
+    'indices are (item assignment and pop)',
+    'placeholder objects inside constructor lists are not generated (the code would take them for IDs); the single '
+    'form `ins=<placeholder>` is',
     'the placeholders a fixed-size constructor creates and overwrites before returning are unreachable and not observed',
+    '`unit._owner` (auxiliary unit owner, looked at by Connection.reconnect only) is set directly as an attribute',
 ]
 TRUSTED = ['Lean 4.33 kernel', 'correspondence harness harness/props/c18.py + Driver/C18.lean',
            'generator reach (see histogram)']
@@ -41,6 +53,56 @@ CLASSES = {}
 SHAPES = [(2, 1, 1, 1), (1, 0, 2, 1), (2, 1, 2, 0), (1, 1, 1, 1), (0, 0, 1, 0), (3, 0, 3, 1), (2, 1, 2, 1)]
 
 
+class Monitor:
+    """The property's stated preconditions, evaluated in Python on the REAL objects at every primitive
+    list operation the real code performs (item assignment, slice assignment, insert, append, extend;
+    whoever calls them: the user, pipe notation, unit.insert, replace_with, reconnect, ports …),
+    independently of the Lean model.  Sticky, like the model's flag; compared with it on every line.
+
+      * a stream assigned to a port is not already in the same port list;
+      * a slice (or piped unit / tuple) supplies distinct objects, none of which stays in the kept part of
+        the list, and not more than a fixed-size list holds;
+      * a stream that is appended or inserted is not docked on that side of any unit;
+      * (constructor) the stream objects of a list argument are distinct streams.
+    Placeholder objects are subject to the same conditions as streams."""
+    def __init__(self):
+        self.pre = True
+
+    def reset(self):
+        self.pre = True
+
+    @staticmethod
+    def attr(seq):
+        return '_sink' if isinstance(seq, net.AbstractInlets) else '_source'
+
+    def on_set(self, seq, stream):
+        if stream is not None and any(y is stream for y in seq._streams):
+            self.pre = False
+
+    def on_slice(self, seq, slc, streams):
+        lst = seq._streams
+        gone = set(range(*slc.indices(len(lst))))
+        kept = [x for j, x in enumerate(lst) if j not in gone]
+        objs = [x for x in streams if x is not None]
+        if len({id(x) for x in objs}) != len(objs): self.pre = False
+        if any(any(y is x for y in kept) for x in objs): self.pre = False
+        if seq._fixed_size and len(kept) + len(streams) > seq._size: self.pre = False
+
+    def on_add(self, seq, streams):
+        attr, seen = self.attr(seq), set()
+        for x in streams:
+            if getattr(x, attr, None) is not None or id(x) in seen: self.pre = False
+            seen.add(id(x))
+
+    def on_ctor(self, given):
+        objs = [x for x in given if not isinstance(x, str) and x is not None]
+        if len({id(x) for x in objs}) != len(objs): self.pre = False
+        if any(not is_stream(x) for x in objs): self.pre = False
+
+
+MON = Monitor()
+
+
 def setup():
     global net
     import thermosteam as tmo
@@ -48,16 +110,41 @@ def setup():
     net = net_
     tmo.settings.set_thermo(['Water'], cache=True)
     warnings.simplefilter('ignore')
+
+    class Watched:
+        """mixin for the port lists of the test units: reports every primitive list operation to the
+        monitor, then lets the real code do its work unchanged"""
+        __slots__ = ()
+        def _set_stream(self, int, stream, stacklevel):
+            MON.on_set(self, stream)
+            return super()._set_stream(int, stream, stacklevel)
+        def _set_streams(self, slice, streams, stacklevel):
+            streams = list(streams)
+            MON.on_slice(self, slice, streams)
+            return super()._set_streams(slice, streams, stacklevel)
+        def insert(self, index, stream):
+            if not self._fixed_size: MON.on_add(self, [stream])
+            return super().insert(index, stream)
+        def append(self, stream):
+            if not self._fixed_size: MON.on_add(self, [stream])
+            return super().append(stream)
+        def extend(self, streams):
+            streams = list(streams)
+            if not self._fixed_size: MON.on_add(self, streams)
+            return super().extend(streams)
+
+    WIn = type('WatchedInlets', (Watched, net.AbstractInlets), {'__slots__': ()})
+    WOut = type('WatchedOutlets', (Watched, net.AbstractOutlets), {'__slots__': ()})
     for (ni, fi, no, fo) in SHAPES:
         name = f'VU_{ni}{fi}{no}{fo}'
         CLASSES[(ni, fi, no, fo)] = type(name, (net.AbstractUnit,), dict(
             _N_ins=ni, _N_outs=no, _ins_size_is_fixed=bool(fi), _outs_size_is_fixed=bool(fo),
-            _init=lambda self: None))
+            Inlets=WIn, Outlets=WOut, _init=lambda self: None))
 
 
 def budget(tier):
-    return {'quick': dict(seconds=60, cases=400, shrink_s=15, search_s=10),
-            'thorough': dict(seconds=420, cases=6000, shrink_s=40, search_s=30)}[tier]
+    return {'quick': dict(seconds=80, cases=400, shrink_s=15, search_s=10),
+            'thorough': dict(seconds=540, cases=6000, shrink_s=40, search_s=30)}[tier]
 
 
 class ErrorInOp(Exception):
@@ -217,6 +304,9 @@ class Universe:
     def ports_arg(self, t):
         if t == 'M': return None
         if t == 'F': return ()
+        if t.startswith('S:'):
+            # a single stream / placeholder object, or a single string ID (`ins=feed`, `ins='ID'`)
+            return '' if t[2:] == 'new' else self.ref(t[2:])
         items = t[2:]
         res = []
         if items:
@@ -237,6 +327,8 @@ class Universe:
             ni, fi, ai, no, fo, ao = int(t[1]), int(t[2]), t[3], int(t[4]), int(t[5]), t[6]
             cls = CLASSES[(ni, fi, no, fo)]
             ins, outs = self.ports_arg(ai), self.ports_arg(ao)
+            if isinstance(ins, list): MON.on_ctor(ins)
+            if isinstance(outs, list): MON.on_ctor(outs)
             # the unit object exists (and is registered here) even if the constructor raises later
             u = cls.__new__(cls)
             self.units.append(u)
@@ -248,7 +340,21 @@ class Universe:
         elif op == 'stream':
             self.streams.append(net.AbstractStream(''))
         elif op == 'set':
-            self.seq(t[1], int(t[2]))[int(t[3])] = self.optref(t[4])
+            self.seq(t[1], int(t[2]))[int(t[3])] = self.optref(t[4])      # the index may be negative
+        elif op == 'portset':
+            un, st = self.unit(t[2]), self.ref(t[4])
+            (net.InletPort if t[1] == 'i' else net.OutletPort)(un, int(t[3])).set_stream(st, 1)
+        elif op == 'portfrom':
+            x, st = self.ref(t[2]), self.ref(t[3])
+            port = net.InletPort.from_inlet(x) if t[1] == 'i' else net.OutletPort.from_outlet(x)
+            port.set_stream(st, 1)
+        elif op == 'sports':
+            xs, ss = self.refs(t[2]), self.refs(t[3])
+            ports = net.StreamPorts.from_inlets(xs) if t[1] == 'i' else net.StreamPorts.from_outlets(xs)
+            ports[:] = ss
+        elif op == 'own':
+            un = self.unit(t[1])
+            un._owner = None if t[2] == '-' else self.unit(t[2])
         elif op == 'slice':
             self.seq(t[1], int(t[2]))[int(t[3]):int(t[4])] = self.optrefs(t[5])
         elif op == 'sliceall':
@@ -314,6 +420,18 @@ class Universe:
         elif op == 'pipe_u_ss':
             un, ss = self.unit(t[1]), tuple(self.optrefs(t[2]))
             un - ss
+        elif op == 'pipe_ls_u':
+            ss, un = list(self.optrefs(t[1])), self.unit(t[2])
+            ss - un
+        elif op == 'pipe_u_ls':
+            un, ss = self.unit(t[1]), list(self.optrefs(t[2]))
+            un - ss
+        elif op == 'pipe_s_u':
+            st, un = self.ref(t[1]), self.unit(t[2])
+            st - un
+        elif op == 'pipe_u_s':
+            un, st = self.unit(t[1]), self.ref(t[2])
+            un - st
         else:
             raise ErrorInOp('unknown op ' + line)
         self.register()
@@ -336,22 +454,39 @@ def moves(before, after):
     return kinds
 
 
+def describe(line, who, clause, k, fixed):
+    fx = 'fixed' if fixed else 'var'
+    what = 'a stream' if who == 's' else 'a placeholder object'
+    sig = f'{opkind(line)}/{fx}:{clause}' if who == 's' else f'{opkind(line)}/{fx}:placeholder:{clause}'
+    return sig, (f'after `{line}` a port list and {what} disagree: {clause} '
+                 f'({"fixed" if fixed else "variable"}-size {"ins" if k == "i" else "outs"})')
+
+
 def run_ops(ops):
+    """Run a history on the real objects.  Per line: the canonical state, prefixed with the
+    Python-evaluated precondition flag; the oracle is evaluated after every successful operation (a
+    failure is set aside only if this flag AND the model's flag are off, see `filter_failures`)."""
     U = Universe()
+    MON.reset()
     outs, failures, dead = [], [], False
     changed = False
     phmoves = []          # (op_index, op kind, kind of move)
+    stats = {'ops': [],          # (op kind, 'judged' | 'unjudged' | 'raised' | 'bad')
+             'post_exc': []}     # (op kind, consistent?) for raising ops after an in-precondition history
     prev = U.show()
+    broken = False
     for i, line in enumerate(ops):
         if dead:
             outs.append('dead'); continue
         before = U.pointers()
+        pre_before = MON.pre
         try:
             o = U.apply(line)
         except ErrorInOp:
             raise
         except BadRef:
             outs.append('bad-op'); dead = True
+            stats['ops'].append((opkind(line), 'bad'))
             continue
         except Exception as e:
             for cls, nm in ERRMAP:
@@ -360,52 +495,71 @@ def run_ops(ops):
             else:
                 outs.append('err=' + type(e).__name__)
             dead = True
+            stats['ops'].append((opkind(line), 'raised'))
+            # the state a raising call leaves behind is outside the property (the call was rejected);
+            # it is inspected all the same and reported in the evidence
+            if pre_before and not broken:
+                try:
+                    U.register()
+                    stats['post_exc'].append((opkind(line), not U.invariant_failures()))
+                except Exception:
+                    stats['post_exc'].append((opkind(line), False))
             continue
-        outs.append(o)
+        outs.append(f'pre={1 if MON.pre else 0} ' + o)
+        stats['ops'].append((opkind(line), 'judged' if MON.pre else 'unjudged'))
         now = U.show()
         if now != prev and opkind(line) not in ('unit', 'stream'): changed = True
         prev = now
         for mk in moves(before, U.pointers()):
             phmoves.append((i, opkind(line), mk))
-        if not failures:     # once the invariant is broken every later state is tainted: stop judging
+        if not broken:     # once the invariant is broken every later state is tainted: stop judging
             for who, (clause, k, fixed) in U.invariant_failures()[:1]:
-                fx = 'fixed' if fixed else 'var'
-                what = 'a stream' if who == 's' else 'a placeholder object'
-                sig = f'{opkind(line)}/{fx}:{clause}' if who == 's' else f'{opkind(line)}/{fx}:placeholder:{clause}'
-                failures.append({'signature': sig, 'op_index': i,
-                                 'what': f'after `{line}` a port list and {what} disagree: {clause} '
-                                         f'({"fixed" if fixed else "variable"}-size {"ins" if k == "i" else "outs"})'})
-    return U, outs, failures, changed, phmoves
+                broken = True
+                sig, what = describe(line, who, clause, k, fixed)
+                failures.append({'signature': sig, 'op_index': i, 'what': what, 'py_pre': MON.pre})
+    return U, outs, failures, changed, phmoves, stats
 
 
 def run_impl(case: Case) -> ImplResult:
-    U, outs, failures, changed, phmoves = run_ops(case.ops)
+    U, outs, failures, changed, phmoves, stats = run_ops(case.ops)
     tags = sorted({opkind(l) for l in case.ops})
     tags += ['err:' + o[4:] for o in outs if o.startswith('err=')]
     tags += sorted({f'ph-moved:{mk}' for (_, _, mk) in phmoves})
     tags += sorted({f'ph-moved:unit-to-unit/{k}' for (_, k, mk) in phmoves if mk == 'unit-to-unit'})
     if any(t[0] in 'm' or (t[0] == 'p' and '.' in t) for l in case.ops for t in l.replace(',', ' ').split(' ')[1:] if t):
         tags.append('placeholder-operand')
+    if any(not ok for (_, ok) in stats['post_exc']):
+        tags.append('post-exception:inconsistent')
     res = ImplResult(model_in=list(case.ops), outs=outs, failures=failures, tags=tags,
                      nontrivial=(tuple(case.ops) if changed else None))
     res.phmoves = phmoves
+    res.stats = stats
+    # length of the history proper: operations after the prelude (`stream` / `unit` lines at the front)
+    n0 = 0
+    for l in case.ops:
+        if opkind(l) in ('stream', 'unit'): n0 += 1
+        else: break
+    res.length = sum(1 for o in outs[n0:] if o.startswith('pre='))
+    res.judged_length = sum(1 for o in outs[n0:] if o.startswith('pre=1'))
     return res
 
 
-def compare(impl_line, model_line):
-    m = model_line
-    if m.startswith('pre='): m = m[6:]
-    return impl_line == m
-
+# The model's precondition flag is part of the compared line: `pre=<0|1> <state>` must be identical,
+# so a monitor in the model that is too eager (or too lax) shows up as a disagreement.
 
 def filter_failures(res, model_out):
-    """An invariant failure counts only while every operation so far was used within the
-    property's preconditions, as judged by the model's sticky pre= flag."""
-    keep = []
+    """An oracle failure is set aside only when BOTH independent evaluations of the stated preconditions
+    — the Python monitor on the real objects and the model's flag — say that the history had left the
+    preconditions by then.  (The Python monitor sees the primitive calls the real code makes; a changed
+    code path that calls `append` on a docked stream must not be able to excuse itself that way, and a
+    model monitor that is too eager must not be able to hide a failure either.  Any difference between
+    the two flags is reported as a disagreement in its own right.)"""
+    keep, res.set_aside = [], []
     for f in res.failures:
         i = f['op_index']
-        if i < len(model_out) and model_out[i].startswith('pre=1'):
-            keep.append(f)
+        model_pre = i < len(model_out) and model_out[i].startswith('pre=1')
+        if f.get('py_pre', True) or model_pre: keep.append(f)
+        else: res.set_aside.append(f['signature'])
     return keep
 
 
@@ -414,26 +568,66 @@ def model_tags(line):
 
 
 def extra_evidence(executed, model_outs):
-    """how often existing placeholder objects were carried between units, and how often that
-    happened inside the preconditions (model pre=1 at that operation)"""
+    """exercise rates: how often existing placeholder objects were carried between units (and how often
+    inside the preconditions); how long the histories really are; per operation kind how many executions
+    were judged by the oracle (precondition flag still on), not judged, or raised; which raw oracle failures
+    were set aside because the history had left the preconditions; what raising calls leave behind"""
     ops_total = ops_pre = cases_any = cases_pre = 0
     by_kind = {}
-    for (case, res), mo in zip(executed, model_outs):
+    lengths, judged = [], []
+    per_op, filtered, post = {}, {}, {'raising_ops_after_in_precondition_history': 0,
+                                      'left_inconsistent': 0, 'left_inconsistent_by_op': {}}
+    def bucket(n):
+        for lo, hi in ((0, 4), (5, 9), (10, 19), (20, 29), (30, 39), (40, 49)):
+            if lo <= n <= hi: return f'{lo}-{hi}'
+        return '50+'
+    for (case, res) in executed:
+        outs = res.outs
         pm = [x for x in getattr(res, 'phmoves', []) if x[2] == 'unit-to-unit']
         if pm: cases_any += 1
         seen_pre = False
         for (i, k, _) in pm:
             ops_total += 1
-            inpre = i < len(mo) and mo[i].startswith('pre=1')
-            if inpre:
+            if i < len(outs) and outs[i].startswith('pre=1'):
                 ops_pre += 1; seen_pre = True
                 by_kind[k] = by_kind.get(k, 0) + 1
         if seen_pre: cases_pre += 1
-    return {'placeholder_moves': {'ops_moving_a_placeholder_unit_to_unit': ops_total,
-                                  'of_which_within_preconditions': ops_pre,
-                                  'cases_with_such_an_op': cases_any,
-                                  'cases_with_such_an_op_within_preconditions': cases_pre,
-                                  'within_preconditions_by_op_kind': dict(sorted(by_kind.items()))}}
+        if case.meta.get('random'):
+            lengths.append(getattr(res, 'length', 0)); judged.append(getattr(res, 'judged_length', 0))
+        st = getattr(res, 'stats', None)
+        if st:
+            for (k, what) in st['ops']:
+                d = per_op.setdefault(k, {'judged': 0, 'unjudged': 0, 'raised': 0, 'bad': 0})
+                d[what] += 1
+            for (k, ok) in st['post_exc']:
+                post['raising_ops_after_in_precondition_history'] += 1
+                if not ok:
+                    post['left_inconsistent'] += 1
+                    post['left_inconsistent_by_op'][k] = post['left_inconsistent_by_op'].get(k, 0) + 1
+        for sig in getattr(res, 'set_aside', []):
+            filtered[sig] = filtered.get(sig, 0) + 1
+    def hist(xs):
+        h = {}
+        for n in xs: h[bucket(n)] = h.get(bucket(n), 0) + 1
+        order = ['0-4', '5-9', '10-19', '20-29', '30-39', '40-49', '50+']
+        return {k: h[k] for k in order if k in h}
+    ev = {'placeholder_moves': {'ops_moving_a_placeholder_unit_to_unit': ops_total,
+                                'of_which_within_preconditions': ops_pre,
+                                'cases_with_such_an_op': cases_any,
+                                'cases_with_such_an_op_within_preconditions': cases_pre,
+                                'within_preconditions_by_op_kind': dict(sorted(by_kind.items()))},
+          'random_history_lengths': {
+              'cases': len(lengths),
+              'successful_ops_after_prelude': hist(lengths),
+              'of_which_judged_by_the_oracle': hist(judged),
+              'mean': round(sum(lengths) / max(1, len(lengths)), 1), 'max': max(lengths, default=0),
+              'mean_judged': round(sum(judged) / max(1, len(judged)), 1), 'max_judged': max(judged, default=0)},
+          'per_op_kind': {k: per_op[k] for k in sorted(per_op)},
+          'oracle_failures_outside_preconditions_by_signature': dict(sorted(filtered.items())),
+          'states_left_by_raising_calls': post}
+    return ev
+
+
 # --------------------------------------------------------------------------
 # generation
 # --------------------------------------------------------------------------
@@ -502,22 +696,67 @@ def gen_op(rng, U):
     kind = rng.choices(
         ['set', 'slice', 'sliceall', 'ins', 'app', 'ext', 'rep', 'pop', 'rem', 'clr', 'emp', 'dsrc', 'dsnk',
          'disc', 'udisc', 'tpo', 'rww', 'rwn', 'recon', 'uins', 'pipe_s_i_u', 'pipe_u_i_s', 'pipe_u_u',
-         'pipe_ss_u', 'pipe_u_ss', 'stream', 'unit', 'slicefrom'],
+         'pipe_ss_u', 'pipe_u_ss', 'stream', 'unit', 'slicefrom',
+         'pipe_s_u', 'pipe_u_s', 'pipe_ls_u', 'pipe_u_ls', 'portset', 'portfrom', 'sports', 'own'],
         [14, 6, 4, 6, 6, 3, 6, 7, 6, 3, 3, 3, 3,
-         3, 5, 4, 3, 3, 3, 5, 4, 4, 6,
-         3, 3, 2, 1, 4])[0]
+         3, 5, 4, 3, 3, 4, 5, 4, 4, 6,
+         3, 3, 2, 2, 4,
+         4, 4, 2, 2, 3, 3, 2, 1])[0]
     if kind == 'stream': return 'stream'
     if kind == 'unit':
         return gen_unit(rng, U, rng.choice(SHAPES))
-    if kind in ('set', 'pipe_s_i_u', 'pipe_u_i_s'):
+    if kind == 'own':
+        return f'own {u} {"-" if rng.random() < 0.3 else rng.randrange(nu)}'
+    if kind in ('ins', 'app', 'ext') and fixed and rng.random() < 0.9:
+        # these are rejected on fixed-size lists: mostly aim at an extendable one
+        var = [(k2, v) for v in range(nu) for k2 in 'io' if not U.seq(k2, v)._fixed_size]
+        if var:
+            k, u = rng.choice(var); seq = U.seq(k, u); n = len(seq._streams); fixed = False
+    if kind in ('pipe_s_u', 'pipe_u_s'):
+        k = 'i' if kind == 'pipe_s_u' else 'o'
+        s = choose_stream(rng, U, k, allow_placeholder=0.03)
+        if s is None: return 'stream'
+        return f'pipe_s_u {s} {u}' if kind == 'pipe_s_u' else f'pipe_u_s {u} {s}'
+    if kind == 'portfrom':
+        # the port that holds x now gets s
+        held = [x for x in U.streams + U.missing if getattr(x, '_sink' if k == 'i' else '_source') is not None]
+        if not held or rng.random() < 0.05: held = U.streams + U.missing
+        if not held: return 'stream'
+        x = rng.choice(held)
+        tgt = getattr(x, '_sink' if k == 'i' else '_source')
+        lst = (tgt.ins if k == 'i' else tgt.outs)._streams if tgt is not None else None
+        s = choose_stream(rng, U, k, allow_placeholder=0.2, not_in=lst)
+        if s is None: return 'stream'
+        return f'portfrom {k} {U.name(x)} {s}'
+    if kind == 'sports':
+        held = [x for x in U.streams + U.missing if getattr(x, '_sink' if k == 'i' else '_source') is not None]
+        if not held: return 'stream'
+        xs = rng.sample(held, min(len(held), rng.randrange(1, 3)))
+        used = []
+        for x in xs:
+            tgt = getattr(x, '_sink' if k == 'i' else '_source')
+            used += list((tgt.ins if k == 'i' else tgt.outs)._streams)
+        ss = []
+        for _ in range(len(xs) if rng.random() < 0.93 else len(xs) + 1):
+            t = choose_stream(rng, U, k, allow_placeholder=0.2, not_in=used)
+            if t is None: return 'stream'
+            ss.append(t)
+            try: used.append(U.ref(t))
+            except Exception: pass
+        return f'sports {k} {",".join(U.name(x) for x in xs)} {",".join(ss)}'
+    if kind in ('set', 'pipe_s_i_u', 'pipe_u_i_s', 'portset'):
         if kind == 'pipe_s_i_u': k = 'i'; seq = U.seq(k, u); n = len(seq._streams)
         if kind == 'pipe_u_i_s': k = 'o'; seq = U.seq(k, u); n = len(seq._streams)
         i = rng.randrange(n + 1) if (n == 0 or rng.random() < 0.1) else rng.randrange(n)
+        if kind == 'set' and n and rng.random() < 0.12:
+            i = -rng.randrange(1, n + 1) if rng.random() < 0.92 else -(n + 1)      # `seq[-1] = s`
         if kind == 'set' and rng.random() < 0.12:
             return f'set {k} {u} {i} none'
-        s = choose_stream(rng, U, k, allow_placeholder=(0.25 if kind == 'set' else 0.02), not_in=seq._streams)
+        s = choose_stream(rng, U, k, allow_placeholder=(0.25 if kind in ('set', 'portset') else 0.02),
+                          not_in=seq._streams)
         if s is None: return 'stream'
         if kind == 'set': return f'set {k} {u} {i} {s}'
+        if kind == 'portset': return f'portset {k} {u} {i} {s}'
         if kind == 'pipe_s_i_u': return f'pipe_s_i_u {s} {i} {u}'
         return f'pipe_u_i_s {u} {i} {s}'
     if kind == 'slicefrom':
@@ -537,9 +776,9 @@ def gen_op(rng, U):
         names = [U.name(x) if is_stream(x) else placeholder_name(rng, U, x) for x in items]
         it = ','.join(names) if names else '[]'
         return f'slice {k} {u} {a} {b} {it}'
-    if kind in ('slice', 'sliceall', 'pipe_ss_u', 'pipe_u_ss'):
-        if kind == 'pipe_ss_u': k = 'i'
-        if kind == 'pipe_u_ss': k = 'o'
+    if kind in ('slice', 'sliceall', 'pipe_ss_u', 'pipe_u_ss', 'pipe_ls_u', 'pipe_u_ls'):
+        if kind in ('pipe_ss_u', 'pipe_ls_u'): k = 'i'
+        if kind in ('pipe_u_ss', 'pipe_u_ls'): k = 'o'
         seq = U.seq(k, u); n = len(seq._streams); fixed = seq._fixed_size
         if kind == 'slice':
             a = rng.randrange(n + 1); b = rng.randrange(n + 2)
@@ -562,11 +801,11 @@ def gen_op(rng, U):
         it = ','.join(items) if items else '[]'
         if kind == 'slice': return f'slice {k} {u} {a} {b} {it}'
         if kind == 'sliceall': return f'sliceall {k} {u} {it}'
-        if kind == 'pipe_ss_u':
+        if kind in ('pipe_ss_u', 'pipe_ls_u'):
             if not items: return f'sliceall i {u} []'
-            return f'pipe_ss_u {it} {u}'
+            return f'{kind} {it} {u}'
         if not items: return f'sliceall o {u} []'
-        return f'pipe_u_ss {u} {it}'
+        return f'{kind} {u} {it}'
     if kind in ('ins', 'app'):
         s = choose_stream(rng, U, k, allow_placeholder=0.2, undocked_only=True)
         if s is None: return 'stream'
@@ -593,6 +832,7 @@ def gen_op(rng, U):
         return f'rep {k} {u} {a} {b}'
     if kind == 'pop':
         i = rng.randrange(n + 1) if (n == 0 or rng.random() < 0.08) else rng.randrange(n)
+        if n and rng.random() < 0.15: i = -rng.randrange(1, n + 1)      # `seq.pop(-1)`
         return f'pop {k} {u} {i}'
     if kind == 'rem':
         if n and rng.random() < 0.92:
@@ -644,12 +884,35 @@ def gen_op(rng, U):
         return f'recon {port("o")} {s} {port("i")}'
     if kind == 'uins':
         # a stream (sometimes a placeholder that connects two units) with both ends connected is the intended use
-        both = [U.name(s) for s in U.streams + (U.missing if rng.random() < 0.2 else [])
-                if s._source is not None and s._sink is not None]
-        anyc = list(range(len(U.streams)))
-        if both and rng.random() < 0.85: s = rng.choice(both)
-        elif anyc: s = f's{rng.choice(anyc)}'
+        both = [x for x in U.streams + (U.missing if rng.random() < 0.2 else [])
+                if x._source is not None and x._sink is not None]
+        if both and rng.random() < 0.9: x = rng.choice(both)
+        elif U.streams: x = rng.choice(U.streams)
         else: return 'stream'
+        s = U.name(x)
+        if rng.random() < 0.85:
+            # arguments the code accepts: an outlet where one is needed, an inlet where one is needed
+            for _ in range(4):
+                un = U.units[u]
+                if un is not x._source and un is not x._sink: break
+                u = rng.randrange(nu)
+            un = U.units[u]
+            outs, ins = un.outs._streams, un.ins._streams
+            if not un._outs_size_is_fixed and rng.random() < 0.8: outlet = '-'
+            elif un._outs_size_is_fixed and un._N_outs == 1 and rng.random() < 0.7: outlet = '-'
+            elif outs:
+                j = rng.randrange(len(outs))
+                outlet = U.name(outs[j]) if (is_stream(outs[j]) and rng.random() < 0.5) else f'i{j}'
+            else: outlet = '-'
+            added = outlet == '-' and not un._outs_size_is_fixed
+            need1 = un._ins_size_is_fixed or added
+            if (not need1 or un._N_ins == 1) and rng.random() < 0.75: inlet = '-'
+            else:
+                reals = [y for y in ins if is_stream(y)]
+                if reals and rng.random() < 0.5: inlet = U.name(rng.choice(reals))
+                elif outs: inlet = f'i{rng.randrange(len(outs))}'     # an integer inlet indexes `outs` (sic)
+                else: inlet = '-'
+            return f'uins {u} {s} {inlet} {outlet}'
         un = U.units[u]
         def pr(seq, side):
             r = rng.random()
@@ -667,8 +930,13 @@ def gen_unit(rng, U, shape):
     ni, fi, no, fo = shape
     def arg(k, n, fx):
         r = rng.random()
-        if r < 0.35: return 'M'
-        if r < 0.55: return 'F'
+        if r < 0.30: return 'M'
+        if r < 0.48: return 'F'
+        if r < 0.62 and (n > 0 or not fx or rng.random() < 0.1):
+            # the single forms `ins=feed`, `ins='ID'`
+            if rng.random() < 0.3: return 'S:new'
+            s = choose_stream(rng, U, k, allow_placeholder=0.15)
+            return 'S:' + s if s else 'S:new'
         m = rng.randrange(n + 1) if fx else rng.randrange(n + 2)
         if rng.random() < 0.05: m = n + 1
         items = []
@@ -684,7 +952,8 @@ def gen_unit(rng, U, shape):
     return f'unit {ni} {fi} {arg("i", ni, fi)} {no} {fo} {arg("o", no, fo)}'
 
 
-def gen_case(rng, n_units, n_streams, length):
+def gen_case_plain(rng, n_units, n_streams, length):
+    """a history that simply stops at the first operation the code rejects (broad error-path coverage)"""
     U = Universe()
     ops = []
     def do(line):
@@ -700,10 +969,62 @@ def gen_case(rng, n_units, n_streams, length):
     shapes = [rng.choice(SHAPES) for _ in range(n_units)]
     if n_units >= 3: shapes[:3] = SHAPES[:3]
     for sh in shapes:
-        if not do(gen_unit(rng, U, sh)): return Case(ops, {})
+        if not do(gen_unit(rng, U, sh)): return Case(ops, {'random': True, 'plain': True})
     for _ in range(length):
         if not do(gen_op(rng, U)): break
-    return Case(ops, {})
+    return Case(ops, {'random': True, 'plain': True})
+
+
+def gen_case(rng, n_units, n_streams, length, tail=0.3):
+    """a history of `length` operations that the code accepts and that stay inside the stated
+    preconditions (judged by the Python monitor on the real objects): a proposed operation that raises
+    or leaves the preconditions is dropped and generation continues from the accepted prefix (the
+    universe is rebuilt from it whenever the rejected call left any trace).  With probability `tail` a
+    few unfiltered operations follow at the end (they may raise or leave the preconditions)."""
+    U = Universe()
+    MON.reset()
+    ops = []
+
+    def rebuild():
+        V = Universe()
+        MON.reset()
+        for l in ops: V.apply(l)
+        return V
+
+    def attempt(line):
+        nonlocal U
+        before, nu = U.show(), len(U.units)
+        try:
+            U.apply(line)
+        except ErrorInOp:
+            raise
+        except Exception:
+            if U.show() != before or len(U.units) != nu: U = rebuild()
+            return False
+        if not MON.pre:
+            U = rebuild()
+            return False
+        ops.append(line)
+        return True
+
+    for _ in range(n_streams): attempt('stream')
+    shapes = [rng.choice(SHAPES) for _ in range(n_units)]
+    if n_units >= 3: shapes[:3] = SHAPES[:3]
+    for sh in shapes:
+        for _ in range(6):
+            if attempt(gen_unit(rng, U, sh)): break
+    n0, tries = len(ops), 0
+    while len(ops) - n0 < length and tries < 6 * length + 30:
+        tries += 1
+        attempt(gen_op(rng, U))
+    if rng.random() < tail:
+        for _ in range(rng.randrange(1, 4)):
+            line = gen_op(rng, U)
+            ops.append(line)
+            try: U.apply(line)
+            except ErrorInOp: raise
+            except Exception: break
+    return Case(ops, {'random': True, 'target': length})
 
 
 # The empty three-unit / five-stream universe.  Its placeholder objects:
@@ -743,6 +1064,16 @@ def alphabet():
             ops.append(f'slice {k} {u} 1 2 m5')
             ops.append(f'rep {k} {u} p{k}.{u}.0 s4'); ops.append(f'rep {k} {u} p{k}.{u}.0 none')
             ops.append(f'rep {k} {u} p{k}.{u}.0 m1'); ops.append(f'rep {k} {u} p{k}.{u}.0 m5')
+            # negative indices, ports
+            ops.append(f'set {k} {u} -1 s0'); ops.append(f'set {k} {u} -1 none'); ops.append(f'set {k} {u} -3 s1')
+            ops.append(f'set {k} {u} -1 m4'); ops.append(f'pop {k} {u} -1'); ops.append(f'pop {k} {u} -2')
+            ops.append(f'portset {k} {u} 0 s2'); ops.append(f'portset {k} {u} 1 m4')
+            ops.append(f'portfrom {k} p{k}.{u}.0 s1'); ops.append(f'portfrom {k} s0 s1')
+        # `stream - unit`, `unit - stream`, the same with lists
+        for s in S[:3] + ['m0']:
+            ops.append(f'pipe_s_u {s} {u}'); ops.append(f'pipe_u_s {u} {s}')
+        ops.append(f'pipe_ls_u s0,s1 {u}'); ops.append(f'pipe_u_ls {u} s3'); ops.append(f'pipe_u_ls {u} s3,m0')
+        ops.append(f'own {u} {(u + 1) % 3}')
         for v in range(3):
             if v != u:
                 ops.append(f'tpo {u} {v}'); ops.append(f'pipe_u_u {u} {v}'); ops.append(f'rww {u} {v}')
@@ -752,6 +1083,14 @@ def alphabet():
             ops.append(f'uins {u} {s} - -')
     for s in S + ['m0', 'm2', 'm3', 'm5']:
         ops += [f'dsrc {s}', f'dsnk {s}', f'disc {s}']
+    # constructing a unit with a single stream / a single ID / an explicit list (takes streams over)
+    ops += ['unit 1 1 S:s0 1 1 M', 'unit 1 1 S:new 1 1 S:s1', 'unit 2 1 S:s0 2 1 S:m2', 'unit 1 0 S:m0 2 1 S:new',
+            'unit 2 1 M 2 0 S:s0', 'unit 0 0 S:s0 1 0 M', 'unit 1 0 S:s1 2 1 M', 'unit 2 1 L:s0,s1 1 1 L:s2',
+            'unit 1 0 L:s0,none,s1 2 1 L:new', 'unit 2 1 S:s0 1 1 S:s0']
+    # StreamPorts, Connection.reconnect (with and without an owner relation)
+    ops += ['sports i m0,m3 s0,s1', 'sports o m2,m4 s0,s1', 'sports i m0 s0,s1', 'sports i s0 s1',
+            'recon 0:0 s0 1:0', 'recon 1:0 s1 0:1', 'recon - s0 0:0', 'recon 0:0 s0 -', 'recon 2:1 s2 2:0',
+            'recon - s0 -']
     return ops
 
 
@@ -784,6 +1123,19 @@ def alphabet2():
                 ops.append(f'app {k} {u} {m}'); ops.append(f'rem {k} {u} {m}')
     for s in S[:3] + M:
         ops += [f'dsrc {s}', f'dsnk {s}', f'disc {s}']
+    for u in range(4):
+        for s in ['s1', 's2', 's3', 'm1']:
+            ops.append(f'pipe_s_u {s} {u}'); ops.append(f'pipe_u_s {u} {s}')
+        ops.append(f'own {u} {(u + 1) % 4}')
+        for k in 'io':
+            ops.append(f'set {k} {u} -1 s3'); ops.append(f'pop {k} {u} -1')
+            ops.append(f'portset {k} {u} 0 s3'); ops.append(f'portset {k} {u} 0 m1')
+    ops += ['unit 1 1 S:s1 1 1 S:s2', 'unit 2 1 S:m0 1 1 S:m1', 'unit 1 0 S:s2 2 1 S:new', 'unit 2 1 L:s1,s2 2 0 S:s4',
+            'unit 1 1 S:s0 1 1 M', 'unit 2 1 S:s3 2 1 S:s1',
+            'portfrom i s1 s3', 'portfrom o s1 s3', 'portfrom i s2 m1', 'portfrom o s2 m0', 'portfrom i s4 s0',
+            'sports i s1,s2 s3,s0', 'sports o s1,s2 s4,s0', 'sports i s0,s3 m1,s4',
+            'recon 0:0 s1 1:0', 'recon 1:0 s2 2:0', 'recon 0:0 s2 2:1', 'recon - s1 1:0', 'recon 0:0 s1 -',
+            'recon 1:1 s4 3:0', 'recon 3:0 s1 0:1']
     return ops
 
 
@@ -809,7 +1161,7 @@ def generate(rng, tier, index, nworkers):
         for j in range(index, len(pairs), nworkers):
             yield Case(BASE2 + list(pairs[j]), {'exhaustive': 'movers-2'})
     for _ in range(6 if tier == 'quick' else 40):
-        pre = gen_case(rng, 3, 5, rng.randrange(2, 10)).ops
+        pre = gen_case(rng, 3, 5, rng.randrange(2, 10), tail=0).ops
         # keep only if the prefix has the standard universe shape (3 units, 5 streams at the front)
         base = ['stream'] * 5 + [l for l in pre if l.startswith('unit')][:3]
         if len(base) != 8: continue
@@ -821,12 +1173,14 @@ def generate(rng, tier, index, nworkers):
     n = max(1, b['cases'] // nworkers)
     for j in range(n):
         r = rng.random()
-        if r < 0.5:
+        if r < 0.12:
+            yield gen_case_plain(rng, rng.randrange(3, 6), rng.randrange(5, 9), rng.randrange(3, 30))
+        elif r < 0.45:
             yield gen_case(rng, 3, 5, rng.randrange(3, 12))
-        elif r < 0.85:
+        elif r < 0.75:
             yield gen_case(rng, rng.randrange(3, 6), rng.randrange(5, 9), rng.randrange(10, 30))
         else:
-            yield gen_case(rng, rng.randrange(4, 7), rng.randrange(6, 11), 50)
+            yield gen_case(rng, rng.randrange(4, 7), rng.randrange(6, 11), rng.randrange(45, 56))
 
 
 def protect_prefix(case):
